@@ -36,6 +36,10 @@ mod macros;
 /// Error type.
 pub mod error;
 
+/// Scheduling points for the verification harness (no-ops unless a hook is installed).
+#[cfg(jsonrpsee_verif)]
+pub mod verif_hooks;
+
 /// Traits
 pub mod traits;
 
